@@ -205,6 +205,12 @@ def gen_scenarios(rng, n):
         out.append(lines_of(ops))
         out.append(lines_of(["pkgid 0", "new 0 %d" % comm, "settype 0 7", "defaults 3 400 2 2 2 7", use_op(7, 0, 1, 0, EG), "getpk 0", "getnr 0",
                              "setpk 0 -1", use_op(7, 0, 0, 0, EG), "getpk 0", "setpk 0 3", use_op(7, 0, 3, 1, EG), "getpk 0", "getnr 0"]))
+        # the eager threshold around the payload-free form of sc_notify_payloadv, thresholds below, at and above sizeof (int)
+        for t in (0, 1, 2, 3, 4, 6, 7, 8):
+            ops = ["new 0 %d" % comm, "settype 0 %d" % t] + (["setcb 0 2 3"] if t == 8 else [])
+            for e in (0, 1, 2, 3, 4, 5, 0x400):
+                ops += ["seteager 0 %s" % hx(e), U("usevn 0 %d" % (e % 4)), "geteager 0", U("usev 0 1"), "geteager 0"]
+            out.append(lines_of(ops + ALLG))
         # superset callback and context
         ops = ["new 0 %d" % comm, "settype 0 8"]
         for i, (f, x) in enumerate(((1, 0), (2, 5), (3, 7), (1, 1))):
@@ -444,7 +450,7 @@ def part2_compare(ctx, label, mpi, scen, impl, model, stats):
             name = tok.split()[0]
             if name.startswith("get") or name in ("shget", "spacing", "spacing0", "spacingu"):
                 stats["getter_calls"] += 1
-            if name in ("use", "usev", "shuse", "spacingu"):
+            if name in ("use", "usev", "usevn", "shuse", "spacingu"):
                 stats["use_calls"] = stats.get("use_calls", 0) + 1
             elif name.startswith("set") or name == "shset":
                 stats["setter_calls"] += 1
